@@ -83,7 +83,7 @@ def monitor(case, impl):
         return ("aliasing", "caller's backing array modified at byte(s) %s (slice is arr[%d:%d:%d], array of %d bytes): %s -> %s" % (
             diff[:20], ci["off"], ci["off"] + ci["len"], ci["off"] + ci["cap"], len(before), hx(before), hx(after)))
     if f.get("ctarr", "same") != "same":
-        return ("aliasing", "Decrypt modified the ciphertext's backing array or the key")
+        return ("aliasing", "Encrypt/Decrypt modified the ciphertext's backing array, the key or an IV slice")
     if not ci["valid"]:
         return None
     if impl.startswith("PANIC") or "panic" in (f.get("new"), f.get("enc"), f.get("dec")):
@@ -187,13 +187,13 @@ def gen(rng, tier):
     streams.append(("all-lengths", ls))
     # prefixes of larger buffers with spare capacity
     sp = []
-    for _ in range(6000 if T else 500):
+    for _ in range(8000 if T else 1200):
         n = rng.choice([0, 1, 5, 15, 16, 17, 31, 32, rng.range(0, maxlen)])
         sp.append(enc_case(ropts(rng, simple=True), rkey(rng), layout(rng, rbytes(rng, n), "spare")))
     streams.append(("spare-capacity", sp))
     # plaintexts ending in bytes that look like padding
     pl = []
-    for _ in range(4000 if T else 300):
+    for _ in range(5000 if T else 600):
         n = rng.range(0, 48)
         k = rng.choice([0, 1, 2, 3, 8, 15, 16, 17, 32, 255])
         tail = bytes([k]) * rng.choice([1, k % 40, 16, rng.range(1, 20)])
@@ -202,7 +202,7 @@ def gen(rng, tier):
     streams.append(("padding-like-tails", pl))
     # option sequences (mode / IV selection)
     ol = []
-    for _ in range(3000 if T else 250):
+    for _ in range(4000 if T else 500):
         data = rbytes(rng, rng.range(0, 40))
         ol.append(enc_case(ropts(rng), rkey(rng), layout(rng, data, "exact")))
     streams.append(("option-sequences", ol))
@@ -220,7 +220,7 @@ def gen(rng, tier):
     streams.append(("malformed-key-iv", ml))
     # Decrypt of arbitrary bytes: lengths not a multiple of 16, bad padding bytes
     dl = []
-    for _ in range(6000 if T else 500):
+    for _ in range(8000 if T else 1000):
         o = ropts(rng, simple=True)
         n = rng.choice([0, 1, 15, 16, 17, 32, 33, rng.range(0, 70), 16 * rng.range(0, 5)])
         data = rbytes(rng, n)
@@ -231,11 +231,34 @@ def gen(rng, tier):
     # above (last byte uniformly random: 0, > 16, > length all occur).
     # concurrency: 16 goroutines share a cipher
     cl = []
-    for _ in range(200 if T else 24):
+    for _ in range(300 if T else 40):
         pts = [rbytes(rng, rng.choice([0, 1, 15, 16, 17, 40, rng.range(0, 64)])) for _ in range(rng.range(2, 6))]
         cl.append("c19C %s %s %s" % (ropts(rng, simple=True), hx(rkey(rng)), " ".join(hx(p) for p in pts)))
     streams.append(("shared-by-16-goroutines", cl))
     return streams
+
+
+def crafted_decrypt(rng, tier):
+    """CBC Decrypt inputs whose last plaintext byte is chosen: Encrypt (by the extracted
+    model) a block-aligned plaintext ending in byte b and drop the padding block. Covers
+    every branch of pkcs5Trimming deterministically: b = 0, 1 <= b <= size (trimmed without
+    validation), b > size (returned untrimmed)."""
+    encs = []
+    for _ in range(1500 if tier != "quick" else 150):
+        nb = rng.choice([1, 1, 2, 3])
+        b = rng.choice([0, 1, 2, 15, 16, 17, 16 * nb - 1, 16 * nb, 16 * nb + 1, 32, 255, rng.below(256)]) % 256
+        data = rbytes(rng, 16 * nb - 1) + bytes([b])
+        o = rng.choice(["-", "cbc", "iv=" + rbytes(rng, 16).hex()])
+        encs.append((o, rkey(rng), data))
+    mo = common.run_model([enc_case(o, k, (d, 0, len(d), len(d))) for o, k, d in encs])
+    out = []
+    for (o, k, d), m in zip(encs, mo):
+        f = fields(m)
+        if "enc" not in f or f["enc"] == "panic":
+            continue
+        ct = unhx(f["enc"])[:-16]
+        out.append(dec_case(o, k, layout(rng, ct, rng.choice(["exact", "spare"]))))
+    return out
 
 
 # ---------------------------------------------------------------- vm_compute cross-check
@@ -361,6 +384,10 @@ def run(chk):
     binary = pure.build_pure(chk)
     if binary:
         streams = [("corpus", pure.corpus_cases("C19"))] + gen(chk.rng, chk.tier)
+        try:
+            streams.insert(-1, ("decrypt-crafted-last-byte", crafted_decrypt(chk.rng, chk.tier)))
+        except Exception as ex:
+            chk.infra_errors.append("crafted Decrypt cases could not be generated: %r" % (ex,))
         pure.run_streams(chk, binary, streams, compare, monitor, nontrivial)
         try:
             canary(chk, binary)
